@@ -191,7 +191,11 @@ pub trait ByteReader {
         Self: Sized,
         D: Deserializable,
     {
-        let mut result = Vec::with_capacity(num_elements);
+        // the number of elements is frequently read from the very data being parsed and cannot
+        // be trusted for the initial allocation (a few bytes could request exabytes and abort the
+        // process); reserve a bounded amount and let the vector grow as elements are read
+        const MAX_PREALLOCATED_ELEMENTS: usize = 4096;
+        let mut result = Vec::with_capacity(num_elements.min(MAX_PREALLOCATED_ELEMENTS));
         for _ in 0..num_elements {
             let element = D::read_from(self)?;
             result.push(element)
